@@ -63,6 +63,31 @@ def cron_suite(name, mode, m_proj, v_proj, quick, thorough, length=40, extra=Non
     }
 
 
+DISP_HEADER = "From GK Require Import Disp.\nOpen Scope string_scope.\nOpen Scope list_scope.\nOpen Scope Z_scope."
+
+
+def proto_suite(name, quick, thorough):
+    return {
+        "name": name, "cmd": ["disp", "--proto"], "header": DISP_HEADER, "hist_type": "dcase",
+        "eval": "Definition M := Eval vm_compute in disp_mismatches true cases 0.\nPrint M.\n"
+                "Definition V := Eval vm_compute in disp_violations cases 0.\nPrint V.",
+        "diag": "Eval vm_compute in (nth_error cases {k}, omap (fun x => exec true (dc_in x)) (nth_error cases {k})).",
+        "sig": "false",
+        "quick": quick, "thorough": thorough,
+    }
+
+
+def pool_suite(name, quick, thorough):
+    return {
+        "name": name, "cmd": ["disp"], "header": DISP_HEADER, "hist_type": "list pev",
+        "eval": "Definition M := Eval vm_compute in pool_violations cases 0.\nPrint M.\n"
+                "Definition V := Eval vm_compute in pool_violations cases 0.\nPrint V.",
+        "diag": "Eval vm_compute in (nth_error cases {k}).",
+        "sig": "false", "timeout": 900,
+        "quick": quick, "thorough": thorough,
+    }
+
+
 SUITES = {
     "C01": {"suites": [
         repo_suite("c01-inmem", "inmem", "c01", "p_C01", {"n": 25, "shards": 8}, {"n": 200, "shards": 16, }),
@@ -89,6 +114,12 @@ SUITES = {
         repo_suite("c19-ent", "ent", "c13", "p_C19", {"n": 15, "shards": 6}, {"n": 100, "shards": 16}, extra=["--scribble"]),
         cron_suite("c19-cron", "c15", "false true", "false true", {"n": 10, "shards": 4}, {"n": 60, "shards": 16}, extra=["--scribble"]),
     ]},
+    "C08": {"suites": [
+        pool_suite("c08-pool", {"n": 40, "shards": 8}, {"n": 400, "shards": 16}),
+    ], "rule": "1..4 initial workers, up to 12 dispatching goroutines with gated work functions, random interleavings of launch / release / cancel-waiting / Add / Remove; the observed event sequence must be accepted by the pool LTS; distinct = distinct event sequence"},
+    "C09": {"suites": [
+        proto_suite("c09-proto", {"n": 3, "shards": 4}, {"n": 40, "shards": 16}),
+    ], "rule": "the full product of fetch outcome x registry hit/miss x deadline none/past/future x cancellation instant (never / before dispatch / in fetch / during work) x work behaviour (nil / error / panic / block-until-cancelled), minus scenarios in which a blocking work function would never return; each run on the real dispatcher with one worker; distinct = distinct scenario"},
     "C15": {"suites": [
         cron_suite("c15-cron", "c15", "false true", "false true", {"n": 12, "shards": 12}, {"n": 100, "shards": 16}),
     ], "rule": "entry sets over a pool of cron expressions (5/6 fields, @every, TZ=, JsonExp, colliding times, priorities, deterministic mutators), histories of Pop/Peek/Schedule/EditTask; popped tasks and Schedule() compared with occurrence streams computed from separately parsed robfig schedules"},
@@ -119,6 +150,8 @@ PROP_FILES = {
     "C15": ["Props/C15.v"],
     "C16": ["Props/C16.v"],
     "C17": ["Props/C17.v"],
+    "C08": ["Props/C08.v"],
+    "C09": ["Props/C09.v"],
 }
 
 TRUSTED_BASE = [
@@ -135,5 +168,6 @@ ASSUMPTIONS = [
 ]
 
 PARTIAL = {
+    "C08": "goroutine scheduling, the unbuffered-channel rendezvous and ngicks/workerpool (Add/Remove/worker loop) are modelled by an LTS over observable events, not verified; the real dispatcher's event sequences are validated against it",
     "C13": "durability and single-statement atomicity of SQLite are assumed by the model (each acknowledged operation = one transition); exercised by the harness, not proved",
 }
